@@ -154,6 +154,10 @@ func (r *Reader) readMeta(b *box) (err error) {
 		if err != nil && logLevelError() {
 			logError().Object("box", inner).Err(err).Send()
 		}
+		if err != nil && inner.childFailed() {
+			inner.close()
+			break
+		}
 
 		if err = inner.close(); err != nil {
 			logError().Object("box", inner).Err(err).Send()
@@ -187,6 +191,10 @@ func (r *Reader) readMoovBox(b *box) (err error) {
 		}
 		if err != nil && logLevelError() {
 			logError().Object("box", inner).Err(err).Send()
+		}
+		if err != nil && inner.childFailed() {
+			inner.close()
+			break
 		}
 		if err = inner.close(); err != nil {
 			logError().Object("box", inner).Err(err).Send()
